@@ -11,6 +11,8 @@
 //	conc      queries while flushes / compactions / writes run freely
 //	unmap     a group-by query held between shard scan and grouping while the forward family is compacted
 //	park      a dictionary / index flush parked at each of its file-system steps in turn, lookups and writers inside
+//	fault     one file-system step of a dictionary / index flush fails once (i/o error, the node keeps running), then
+//	          writes and further successful flush cycles / compactions, every atom kind asked after every step
 //	directed  fixed scenarios (single-star like, atoms with equal Rewrite text, refusal of an unknown tag key, comma
 //	          values in group by, a query parked between its snapshot and its memory read while a flush completes)
 //
@@ -51,7 +53,9 @@ func main() {
 		"3-4 batches with index/metadata PrepareFlush, Flush, production flush, compaction and close+reopen placed between and after the batches " +
 		"(5 fixed placements + random ones); plus one-metric data sets crossing roaring container boundaries, queries during free-running flushes, " +
 		"a dictionary / index flush parked at each of its file-system steps (table file create / write / close, manifest write / sync, learned from a counting " +
-		"round) with exact-match lookups and writers of flushed values executed inside and every atom kind asked after it completed, and directed scenarios. Non-trivial = the oracle selects a non-empty proper subset of the written series; distinct by (data set, placement, round, query).")
+		"round) with exact-match lookups and writers of flushed values executed inside and every atom kind asked after it completed, the same flushes with one of these " +
+		"steps (or the sync of the id sequence file) failing once - the operation not executed, or for a table file close executed and reported as failed - followed by writes of series reusing the values of the failed flush, " +
+		"one or two further successful PrepareFlush + Flush cycles (direct or through the production flush job) and compactions, every atom kind asked after every one of these steps, and directed scenarios. Non-trivial = the oracle selects a non-empty proper subset of the written series; distinct by (data set, placement, round, query).")
 	c.Assume("language semantics as read from sql/grammar/SQL.g4, sql/base_stmt_parser.go, index/kv_store.go and query/operator/series_filtering.go and confirmed by a probe " +
 		"through the real query path: an atom speaks about series that have the key; a negated atom (!=, <>, not in, not like, !~) selects series that have the key and do not match; " +
 		"like treats * only as first and/or last character (suffix / prefix / contains), otherwise it is an exact match, the empty pattern matches nothing; " +
@@ -66,6 +70,9 @@ func main() {
 	c.Assume("park cases: MetricMetaDatabase.GenTagValueID of a value that was written returns the id the value got when it was created (it is how the write path " +
 		"asks); a changed id means the dictionary lost the value. Whether the lookups ran inside the window is decided on logical events (they completed before " +
 		"the harness released the parked flush); a step at which they cannot complete is counted as blocked and not judged")
+	c.Assume("fault cases: a flush whose file-system step fails returns an error and the node keeps running (no crash, no reopen); nothing runs concurrently with a query, so the brute-force " +
+		"comparison is exact after the failed flush, after the writes that follow it, after every later successful cycle and after compaction: what a failed flush could not commit stays readable in memory. " +
+		"Durability of the retried flush across a restart is C07's subject and is not asked here")
 	c.Assume("timestamps lie 2 hours in the past of the child's start (hour aligned + 10 min); TZ=UTC for the children; race detector reports do not decide C10, no race variant is built")
 
 	var jobs []job
@@ -84,6 +91,9 @@ func main() {
 	jobs = append(jobs, job{"unmap", 0})
 	for i := 0; i < c.Pick(4, 16); i++ {
 		jobs = append(jobs, job{"park", i})
+	}
+	for i := 0; i < c.Pick(6, 24); i++ {
+		jobs = append(jobs, job{"fault", i})
 	}
 	if only := os.Getenv("C10_ONLY_KIND"); only != "" {
 		var js []job
@@ -106,7 +116,7 @@ func main() {
 	}
 	// long jobs first
 	ordered := make([]int, 0, len(jobs))
-	for _, k := range []string{"big", "conc", "directed", "park", "unmap", "hist"} {
+	for _, k := range []string{"big", "fault", "conc", "directed", "park", "unmap", "hist"} {
 		for i, j := range jobs {
 			if j.kind == k {
 				ordered = append(ordered, i)
@@ -237,6 +247,25 @@ func finishChecks(c *core.Ctx) {
 		"park_inside.close_forward/table":                         1,
 		"park_tag_value_ids_compared.during":                      100,
 		"park_tag_value_ids_compared.after":                       100,
+		// fault cases: a step of a flush failed, the flush reported it, later cycles succeeded; in particular the commit step
+		// (table file close, edit log) of the posting lists, the forward index and the tag value dictionary failed
+		"fault_flushes_that_returned_an_error":           60,
+		"fault_successful_cycles_after_a_failed_flush":   60,
+		"fault_injected.close_inverted/table":            1,
+		"fault_injected.close_forward/table":             1,
+		"fault_injected.close_tv/table":                  1,
+		"fault_injected_at_the_commit_of.index/inverted": 3,
+		"fault_injected_at_the_commit_of.index/forward":  3,
+		"fault_injected_at_the_commit_of.index/metric":   3,
+		"fault_injected_at_the_commit_of.index/series":   3,
+		"fault_injected_at_the_commit_of.meta/tv":        3,
+		"fault_injected_at_the_commit_of.meta/metric":    3,
+		"fault_injected_at_the_commit_of.meta/schema":    3,
+		"fault_queries.failed":                           500,
+		"fault_queries.retry1":                           300,
+		"fault_tag_value_ids_compared.failed":            200,
+		"fault_index_families_compacted_with_2+_files":   4,
+		"fault_meta_families_compacted_with_2+_files":    3,
 	}
 	if c.Counter("grouping_stages_parked_after_the_shard_scan") < 1 && c.Counter("children_died_reading_an_unmapped_table_file") < 1 {
 		c.Inconclusive("the unmap case neither parked a grouping stage nor died in the grouping scan")
@@ -272,6 +301,8 @@ func runCaseChild() {
 		res = runUnmapCase(idx, dir, tier, seed)
 	case "park":
 		res = runParkCase(idx, dir, tier, seed)
+	case "fault":
+		res = runFaultCase(idx, dir, tier, seed)
 	default:
 		fmt.Println("unknown case kind", kind)
 		os.Exit(4)
